@@ -59,5 +59,5 @@ def orders(names, tier, seed, quick_n):
     if tier == 'thorough' or quick_n >= len(perms):
         return perms
     step = max(1, len(perms) // quick_n)
-    return [perms[(seed * 5 + k * step + k) % len(perms)]
+    return [perms[(seed * 5 + k * step) % len(perms)]
             for k in range(quick_n)]
